@@ -854,6 +854,8 @@ class Interp:
                 return self.class_attr(h.cls, base, attr)
             return BoundBuiltin(attr, base)
         if isinstance(base, ClassRef):
+            if attr in ("__name__", "__qualname__"):
+                return base.name
             ci = self.engine.class_info(base.qual)
             if attr in ci.methods:
                 fn = ci.methods[attr]
@@ -1048,6 +1050,13 @@ class Interp:
         eng = self.engine
         if f.self_val is not None and not isinstance(f.node, ast.Lambda):
             args = [f.self_val] + list(args)
+        # externals: a repository function that reaches outside (connection manager, ...) is replaced by a
+        # spec expression (typically a ghost input object) - an assumption listed in the evidence
+        cur = eng.current
+        if cur is not None and target in getattr(cur, "externals", {}):
+            self.ctx.trusted.add(f"external:{target} returns the contract's ghost object `{cur.externals[target]}`")
+            efr = Frame(eng.contract_module(cur), dict(self.ctx.ghost))
+            return self.eval(eng.parse_clause(cur.externals[target]), efr)
         # modular: callee under contract is replaced by its contract
         c = eng.contract_for_call(self, target)
         if c is not None:
